@@ -6,12 +6,12 @@ RS(X) == RandomElement(IF Len(hist) >= 0 THEN X ELSE {})
 Coin(n) == RS(1..n) = 1
 \* mostly good files, with one defect at a time
 PickFile == LET base == [key |-> RS(Owned), ordOK |-> TRUE, bl |-> RS({24, 26}), legacy |-> FALSE, hdr |-> "ok", d |-> RS(Dirs),
-                         plotted |-> Coin(2), hasA |-> TRUE]
+                         prog |-> RS({"none", "preplotted", "plotted"}), hasA |-> TRUE]
             IN CASE Coin(3) -> base
                  [] Coin(2) -> [base EXCEPT !.hdr = RS(HdrKinds)]
                  [] Coin(2) -> [base EXCEPT !.key = RS(Keys), !.ordOK = Coin(2)]
                  [] Coin(2) -> [base EXCEPT !.legacy = TRUE, !.key = RS(Keys)]
-                 [] OTHER -> [base EXCEPT !.hasA = FALSE, !.plotted = Coin(2)]
+                 [] OTHER -> [base EXCEPT !.hasA = FALSE, !.prog = RS({"none", "plotted"})]
 GInit == content = {} /\ hist = <<>>
 \* (the file is bound by a quantifier so that the random pick is evaluated once)
 GNext == \E f \in {PickFile} : f \notin content /\ WellFormed(content \cup {f}) /\ content' = content \cup {f} /\ hist' = Append(hist, f)
